@@ -48,9 +48,9 @@ func ModelRequest(prop string, h *History, t *Table, obs []*StepObs) string {
 	if h.Cfg.Desc {
 		dir = "desc"
 	}
-	fmt.Fprintf(&sb, "(%s run (cfg %s %d) (vals", prop, dir, h.Cfg.ModelThresh())
+	fmt.Fprintf(&sb, "(%s run (cfg %s %d %d) (vals", prop, dir, h.Cfg.ModelThresh(), h.Cfg.ModelStride())
 	for _, v := range t.Vals {
-		fmt.Fprintf(&sb, " (%s %s %s %d)", v.MKey, v.MKey, hexAtom(v.Bytes), v.Ty)
+		fmt.Fprintf(&sb, " (%s %s %s %d %d)", v.MKey, v.MKey, hexAtom(v.Bytes), v.Ty, v.KB)
 	}
 	sb.WriteString(") (ops")
 	for i, op := range h.Ops {
@@ -175,10 +175,16 @@ func ParseModelAnswer(ans string) ([]*StepObs, error) {
 				oo := ObjObs{Min: ob.list[1].atom, Max: ob.list[2].atom, Vec: ob.list[4].atom == "1"}
 				oo.ID, _ = strconv.Atoi(ob.list[0].atom)
 				oo.Count, _ = strconv.Atoi(ob.list[3].atom)
-				if len(ob.list) == 6 && ob.list[5].atom == "gone" {
+				for _, se := range ob.list[5].list[1:] {
+					so := SeekObs{Min: se.list[0].atom, Max: se.list[1].atom}
+					so.Off, _ = strconv.Atoi(se.list[2].atom)
+					so.Cnt, _ = strconv.Atoi(se.list[3].atom)
+					oo.Seek = append(oo.Seek, so)
+				}
+				if len(ob.list) == 7 && ob.list[6].atom == "gone" {
 					oo.Gone = true
 				} else {
-					oo.Toks, err = ob.ints(5)
+					oo.Toks, err = ob.ints(6)
 					if err != nil {
 						return nil, err
 					}
@@ -244,7 +250,7 @@ func CompareStep(t *Table, real, model *StepObs, commits bool) string {
 		}
 		for j, ro := range rb.Objs {
 			mo := mb.Objs[j]
-			if ro.ID != mo.ID || ro.Min != mo.Min || ro.Max != mo.Max || ro.Count != mo.Count || ro.Vec != mo.Vec || ro.Gone != mo.Gone || !EqInts(ro.Toks, mo.Toks) {
+			if ro.ID != mo.ID || ro.Min != mo.Min || ro.Max != mo.Max || ro.Count != mo.Count || ro.Vec != mo.Vec || ro.Gone != mo.Gone || !EqInts(ro.Toks, mo.Toks) || fmt.Sprint(ro.Seek) != fmt.Sprint(mo.Seek) {
 				return fmt.Sprintf("branch b%d object: real %+v, model %+v", rb.Name, ro, mo)
 			}
 		}
